@@ -38,7 +38,8 @@ ASSUMPTIONS = [
     'the best-effort F_GETFD/F_SETFD calls are not fault targets',
 ]
 
-ERRNOS = {'write': [errno.ENOSPC, errno.EIO], 'flush': [errno.ENOSPC, errno.EIO], 'fsync': [errno.EIO],
+ERRNOS = {'write': [errno.ENOSPC, errno.EIO], 'flush': [errno.ENOSPC, errno.EIO],
+          'fsync': [errno.EIO, errno.EINVAL, errno.ENOSYS, errno.ENOTSUP, errno.EROFS, errno.EDQUOT],
           'close': [errno.EIO, errno.ENOSPC], 'open': [errno.EACCES, errno.ENOSPC],
           'chmod': [errno.EPERM], 'rename': [errno.EACCES, errno.EXDEV, errno.EBUSY],
           'link': [errno.EEXIST, errno.EPERM, errno.ENOTSUP, errno.ENOSYS, errno.EMLINK, errno.EXDEV],
@@ -63,7 +64,7 @@ def gen_scn(r):
     if x < 0.25:
         s['raise_at'] = r.randint(0, len(body))
         s['raise_kind'] = r.choice(['body-error', 'body-error', 'KeyboardInterrupt', 'SystemExit',
-                                    'GeneratorExit'])
+                                    'GeneratorExit', 'falsy-exception'])
     elif x < 0.35 and not s['overwrite'] and s['dest'] == 'absent':
         s['intruder'] = True
     if r.random() < 0.15:
@@ -304,6 +305,45 @@ def check_intruder_sweep(fu, scn, stats, viol):
         shutil.rmtree(base, ignore_errors=True)
 
 
+def check_between(fu, scn, stats, viol):
+    """The saver object is constructed, then the destination is chmod-ed / created / deleted by someone else, then the
+    save is entered: permissions (and refusal) follow the state found at entry."""
+    d = tempfile.mkdtemp(prefix='verif-c05b-')
+    try:
+        res = F.run_in_process(fu, scn, d)
+        stats.evaluations += 1
+        stats.monitor_evals += 1
+        stats.count('construct-then-world-changes:' + scn['between'])
+        want = F.expected_bytes(scn)
+        a = res['after']
+        wit = {'scn': scn, 'faults': []}
+        how = scn['between']
+        at_entry_present = (how == 'create-dest') or (how == 'chmod-dest' and scn['dest'] == 'present')
+        if how == 'delete-dest':
+            at_entry_present = False
+        if not scn['overwrite'] and at_entry_present:
+            if res['exc'] is None:
+                viol('between:%s:not-refused' % how, 'overwrite=False and the destination existed when the save was entered', wit)
+            return
+        if res['exc'] is not None:
+            viol('between:%s:raised' % how, 'save raised %r' % (res['exc'],), wit)
+            return
+        if a['dest'] is None or a['dest']['bytes'] != want:
+            viol('between:%s:content' % how, 'destination holds %r' % (brief(a['dest']),), wit)
+            return
+        if scn.get('file_perms') is not None:
+            em = scn['file_perms']
+        elif at_entry_present:
+            em = scn.get('between_mode', 0o600) if how in ('chmod-dest', 'create-dest') else res['before']['dest']['mode']
+        else:
+            em = 0o666 & ~scn.get('umask', 0o022)
+        if a['dest']['mode'] != em:
+            viol('between:%s:wrong-permissions' % how, 'mode %o, expected %o: the file being replaced had that mode when the save '
+                 'was entered (file_perms=%r, umask=%o)' % (a['dest']['mode'], em, scn.get('file_perms'), scn.get('umask', 0o022)), wit)
+    finally:
+        shutil.rmtree(d, ignore_errors=True)
+
+
 def check_reuse(fu, scn, stats, viol):
     """One AtomicSaver object entered twice (a retry loop around `with saver:`): the second save is judged like any
     other save in the directory state it found."""
@@ -442,6 +482,9 @@ def run(ctx):
                 if how == 'after-failure' and not scn['rm_part_on_exc'] and not scn['overwrite_part']:
                     continue        # the part file kept on purpose blocks the next attempt
                 check_reuse(fu, dict(scn, reuse=how), st, viol)
+            for how in ('chmod-dest', 'create-dest', 'delete-dest'):
+                if (how == 'create-dest') == (scn['dest'] == 'absent'):
+                    check_between(fu, dict(scn, between=how, between_mode=[0o600, 0o640, 0o755, 0o604][i % 4]), st, viol)
         if F.strace_available() and i < nA:
             st.count('configurations_strace')
             check_scenario_strace(scn, st, viol)
@@ -466,6 +509,9 @@ def replay(witness):
         return found[0] if found else None
     if scn.get('reuse'):
         check_reuse(fu, scn, st, viol)
+        return found[0] if found else None
+    if scn.get('between'):
+        check_between(fu, scn, st, viol)
         return found[0] if found else None
     d = tempfile.mkdtemp(prefix='verif-c05r-')
     try:
